@@ -265,8 +265,12 @@ func (te *tableEngine) batchAddPlayers(players []JoinPlayer) error {
 }
 
 func (te *tableEngine) playersAutoIn() {
-	// Preparing ready group for waiting all players' join
+	// Preparing ready group for waiting all players' join.
+	// A fresh group every time: the worker goroutine of the previous one may still be
+	// inside its validation, holding the group's read lock and about to take it again;
+	// adding participants to that same group (write lock) dead-locked the reservation.
 	te.rg.Stop()
+	te.rg = syncsaga.NewReadyGroup()
 	te.rg.SetTimeoutInterval(17)
 	te.rg.OnTimeout(func(rg *syncsaga.ReadyGroup) {
 		// Auto Ready By Default
@@ -317,7 +321,6 @@ func (te *tableEngine) playersAutoIn() {
 		}
 	})
 
-	te.rg.ResetParticipants()
 	for playerIdx := range te.table.State.PlayerStates {
 		if !te.table.State.PlayerStates[playerIdx].IsIn {
 			// 新加入的玩家才要放到 ready group 做處理
